@@ -220,46 +220,47 @@ Record gst := {
   nreg : Z;                 (* notifications registered so far: ids 0 .. nreg-1 *)
   fcnt : Z -> Z;            (* how many times notification i has been submitted *)
   waiter : option Z;        (* the thread between its or-orig of DBF_WAITING and its and / or on the way out *)
-  qref : Z                  (* references on the target queue held for dbpd_queue: retains minus releases *)
+  qref : Z;                 (* references on the target queue held for dbpd_queue: retains minus releases *)
+  hands : list Z            (* ghost: the threads that hold such a pair of references "in hand" *)
 }.
 
 Definition init_state (perform : bool) : gst :=
   {| flags := if perform then PERFORM else 0; performed := 0; queue := 0; thread := 0; hasgrp := negb perform;
      gcount := if perform then 0 else 1; pending := []; pcs := fun _ => PIdle; cancelled := false; bodies := 0;
-     fin := 0; ninv := 0; leaves := 0; nreg := 0; fcnt := fun _ => 0; waiter := None; qref := 0 |}.
+     fin := 0; ninv := 0; leaves := 0; nreg := 0; fcnt := fun _ => 0; waiter := None; qref := 0; hands := [] |}.
 
 Definition set_pc s t p := {| flags := flags s; performed := performed s; queue := queue s; thread := thread s;
   hasgrp := hasgrp s; gcount := gcount s; pending := pending s; pcs := upd (pcs s) t p; cancelled := cancelled s;
   bodies := bodies s; fin := fin s; ninv := ninv s; leaves := leaves s; nreg := nreg s; fcnt := fcnt s;
-  waiter := waiter s; qref := qref s |}.
+  waiter := waiter s; qref := qref s; hands := hands s |}.
 Definition set_flags s v c w := {| flags := v; performed := performed s; queue := queue s; thread := thread s;
   hasgrp := hasgrp s; gcount := gcount s; pending := pending s; pcs := pcs s; cancelled := c;
   bodies := bodies s; fin := fin s; ninv := ninv s; leaves := leaves s; nreg := nreg s; fcnt := fcnt s;
-  waiter := w; qref := qref s |}.
+  waiter := w; qref := qref s; hands := hands s |}.
 Definition set_perf s v n := {| flags := flags s; performed := v; queue := queue s; thread := thread s;
   hasgrp := hasgrp s; gcount := gcount s; pending := pending s; pcs := pcs s; cancelled := cancelled s;
   bodies := bodies s; fin := fin s; ninv := n; leaves := leaves s; nreg := nreg s; fcnt := fcnt s;
-  waiter := waiter s; qref := qref s |}.
+  waiter := waiter s; qref := qref s; hands := hands s |}.
 Definition set_queue s v := {| flags := flags s; performed := performed s; queue := v; thread := thread s;
   hasgrp := hasgrp s; gcount := gcount s; pending := pending s; pcs := pcs s; cancelled := cancelled s;
   bodies := bodies s; fin := fin s; ninv := ninv s; leaves := leaves s; nreg := nreg s; fcnt := fcnt s;
-  waiter := waiter s; qref := qref s |}.
+  waiter := waiter s; qref := qref s; hands := hands s |}.
 Definition set_thread s v := {| flags := flags s; performed := performed s; queue := queue s; thread := v;
   hasgrp := hasgrp s; gcount := gcount s; pending := pending s; pcs := pcs s; cancelled := cancelled s;
   bodies := bodies s; fin := fin s; ninv := ninv s; leaves := leaves s; nreg := nreg s; fcnt := fcnt s;
-  waiter := waiter s; qref := qref s |}.
+  waiter := waiter s; qref := qref s; hands := hands s |}.
 Definition set_run s b f := {| flags := flags s; performed := performed s; queue := queue s; thread := thread s;
   hasgrp := hasgrp s; gcount := gcount s; pending := pending s; pcs := pcs s; cancelled := cancelled s;
   bodies := b; fin := f; ninv := ninv s; leaves := leaves s; nreg := nreg s; fcnt := fcnt s;
-  waiter := waiter s; qref := qref s |}.
+  waiter := waiter s; qref := qref s; hands := hands s |}.
 Definition set_grp s c pd l n fc := {| flags := flags s; performed := performed s; queue := queue s; thread := thread s;
   hasgrp := hasgrp s; gcount := c; pending := pd; pcs := pcs s; cancelled := cancelled s;
   bodies := bodies s; fin := fin s; ninv := ninv s; leaves := l; nreg := n; fcnt := fc;
-  waiter := waiter s; qref := qref s |}.
-Definition set_qref s v := {| flags := flags s; performed := performed s; queue := queue s; thread := thread s;
+  waiter := waiter s; qref := qref s; hands := hands s |}.
+Definition set_qref s v h := {| flags := flags s; performed := performed s; queue := queue s; thread := thread s;
   hasgrp := hasgrp s; gcount := gcount s; pending := pending s; pcs := pcs s; cancelled := cancelled s;
   bodies := bodies s; fin := fin s; ninv := ninv s; leaves := leaves s; nreg := nreg s; fcnt := fcnt s;
-  waiter := waiter s; qref := v |}.
+  waiter := waiter s; qref := v; hands := h |}.
 
 (* effect of the flags read at the entry of an invocation: a cancelled invocation is at `out:` immediately *)
 Definition entry_fx (s : gst) (f : Z) : gst :=
@@ -275,6 +276,10 @@ Definition notify_fx (s : gst) : gst :=
   if gcount s =? 0 then set_grp s (gcount s) (pending s) (leaves s) (id + 1) (upd (fcnt s) id (fcnt s id + 1))
   else set_grp s (gcount s) (id :: pending s) (leaves s) (id + 1) (fcnt s).
 
+(* os_atomic_xchg2o(dbpd_queue, NULL): whoever finds a queue there now holds its two references *)
+Definition take_queue (s : gst) (t : Z) : gst :=
+  if queue s =? 0 then set_queue s 0 else set_qref (set_queue s 0) (qref s) (t :: hands s).
+
 (* one step of thread t performing event e: the thread automaton accepts e, e is consistent with the memory and
    with the abstract group, and memory / group / ghost state are updated *)
 Definition gstep (s : gst) (t : Z) (e : event) : option gst :=
@@ -288,12 +293,13 @@ Definition gstep (s : gst) (t : Z) (e : event) : option gst :=
         else if ea e =? flags s then Some (entry_fx s1 (ea e)) else None
     | PCrash => None
     | PRet _ => Some s1
-    | PSubmit _ => Some (set_qref s1 (qref s + 2))
+    | PSubmit _ => Some (set_qref s1 (qref s + 2) (t :: hands s))
     | PSubmitCas _ =>
         (* strong CAS(NULL -> dq): succeeds iff the slot is NULL; reports the value observed *)
         if (ea e =? queue s) && (eok e =? (if queue s =? 0 then 1 else 0))
-        then Some (if queue s =? 0 then set_queue s1 (eb e) else s1) else None
-    | PSubmitRel _ => Some (set_qref s1 (qref s - 2))
+        then Some (if queue s =? 0 then set_qref (set_queue s1 (eb e)) (qref s) (remove Z.eq_dec t (hands s)) else s1)
+        else None
+    | PSubmitRel _ => Some (set_qref s1 (qref s - 2) (remove Z.eq_dec t (hands s)))
     | PInvRead _ => if ea e =? flags s then Some (entry_fx s1 (ea e)) else None
     | PSetThread _ => Some (set_thread s1 (eb e))
     | PBodyNext _ _ => Some (set_run s1 (bodies s + 1) (fin s))
@@ -308,9 +314,9 @@ Definition gstep (s : gst) (t : Z) (e : event) : option gst :=
         if is_grp e then Some s1
         else match v with
              | VDirect => Some s1
-             | _ => if ea e =? queue s then Some (set_queue s1 0) else None
+             | _ => if ea e =? queue s then Some (take_queue s1 t) else None
              end
-    | PRel _ => Some (set_qref s1 (qref s - 2))
+    | PRel _ => Some (set_qref s1 (qref s - 2) (remove Z.eq_dec t (hands s)))
     | PCancel => if ea e =? flags s then Some (set_flags s1 (Z.lor (flags s) CANCELED) true (waiter s)) else None
     | PTestRead => if ea e =? flags s then Some s1 else None
     | PWaitOr _ =>
@@ -318,8 +324,8 @@ Definition gstep (s : gst) (t : Z) (e : event) : option gst :=
         then Some (set_flags s1 (Z.lor (flags s) WAITING) (cancelled s)
                      (if hasb (flags s) (Z.lor WAITED WAITING) then waiter s else Some t))
         else None
-    | PWaitXchg _ => if ea e =? queue s then Some (set_queue s1 0) else None
-    | PWaitWake _ _ => Some (set_qref s1 (qref s - 2))
+    | PWaitXchg _ => if ea e =? queue s then Some (take_queue s1 t) else None
+    | PWaitWake _ _ => Some (set_qref s1 (qref s - 2) (remove Z.eq_dec t (hands s)))
     | PWaitThread _ _ => if ea e =? thread s then Some s1 else None
     | PWaitPerf _ _ _ => if u32 (ea e) =? performed s then Some s1 else None
     | PWaitG _ =>
